@@ -113,8 +113,6 @@ def run(tier, seed):
     p = vlib.run_bin(bins["spv"], ["--scripts", spath, "--random", nrand, "--seed", seed, "--out", tpath])
     summ = json.loads(p.stdout.strip().splitlines()[-1])
     vlib.log("[spv] %s" % summ)
-    if summ["runs_with_notifications"] * 5 < summ["runs"]:
-        raise vlib.ToolError("most runs never moved a listener: driver is not exercising the client")
 
     # ---- 3. trace validation (the oracle)
     total, fails = vlib.validate_trace(PID, "SpvTrace", "SpvTrace.cfg", tpath, timeout=1200)
@@ -130,6 +128,10 @@ def run(tier, seed):
                 "how_to_replay": "harness/target/debug/spv --scripts <file with `script`> --out t.ndjson; "
                                  "TRACE=t.ndjson tlc -config SpvTrace.cfg SpvTrace.tla"}, key=key):
             nviol += 1
+
+    # vacuity guard (only when nothing was found: a change to the code under test must never turn a verdict into a tool error)
+    if nviol == 0 and summ["runs_with_notifications"] * 5 < summ["runs"]:
+        raise vlib.ToolError("most runs never moved a listener: driver is not exercising the client")
 
     # ---- 4. binding self-test on the head of the accepted trace
     st = None
